@@ -105,7 +105,35 @@ func c19Creds() ([]c19Cred, error) {
 		}
 		return []tls.Certificate{c}
 	}
+	// A verified leaf followed by extra certificates the server never verifies (it only verifies the first one and
+	// treats the rest as candidate intermediates): the identity must still be the verified leaf's subject.
+	trailing := func(cn string, isCA bool) []tls.Certificate {
+		base := valid(resources.ClientTest02Crt, resources.ClientTest02Key)[0]
+		junk, jc, _, err := mintCert(cn, nil, nil)
+		if err != nil {
+			panic(err)
+		}
+		_ = junk
+		raw := jc.Raw
+		if !isCA {
+			// re-mint as a non-CA self-signed certificate
+			key, _ := ecdsa.GenerateKey(elliptic.P256(), rand.Reader)
+			tmpl := &x509.Certificate{SerialNumber: big.NewInt(time.Now().UnixNano()), Subject: pkix.Name{CommonName: cn}, NotBefore: time.Now().Add(-time.Hour), NotAfter: time.Now().Add(24 * time.Hour),
+				KeyUsage: x509.KeyUsageDigitalSignature, ExtKeyUsage: []x509.ExtKeyUsage{x509.ExtKeyUsageClientAuth}, BasicConstraintsValid: true}
+			der, err := x509.CreateCertificate(rand.Reader, tmpl, tmpl, &key.PublicKey, key)
+			if err != nil {
+				panic(err)
+			}
+			raw = der
+		}
+		c := base
+		c.Certificate = append(append([][]byte{}, base.Certificate...), raw)
+		return []tls.Certificate{c}
+	}
 	return []c19Cred{
+		{Name: "valid client-test02 followed by an unverified non-CA certificate CN=client-test01", Valid: true, CN: "client-test02", Dial: tlsDial(trailing("client-test01", false))},
+		{Name: "valid client-test02 followed by an unverified CA-flagged certificate CN=client-test01", Valid: true, CN: "client-test02", Dial: tlsDial(trailing("client-test01", true))},
+		{Name: "valid client-test02 followed by an unverified certificate CN=signer-test02", Valid: true, CN: "client-test02", Dial: tlsDial(trailing("signer-test02", false))},
 		{Name: "plaintext (no TLS)", Dial: func(addr string) (*grpc.ClientConn, error) {
 			return grpc.NewClient(addr, grpc.WithTransportCredentials(insecure.NewCredentials()))
 		}},
